@@ -305,6 +305,20 @@ let run_case (lines : string list) =
        | "mk.chan" -> let _how = next tk in let n = tk_str tk in let q = tk_str tk in
          let sf = [M.lit_chan n M.N0] in
          on_outcome (M.channel_idx sf q) (fun i -> pr "ok %s %s\n" (su i) (hexs (List.hd sf).M.ch_name))
+       | "mk.pts" | "mk.chs" ->
+         let nc = tk_int tk in
+         let conts = List.init nc (fun _ -> let k = tk_int tk in List.init k (fun _ -> tk_str tk)) in
+         let nq = tk_int tk in
+         let b = Buffer.create 64 in Buffer.add_string b "ok";
+         for _ = 1 to nq do
+           let c = tk_int tk in let n = tk_str tk in
+           let names = List.nth conts c in
+           let pts = List.map (fun nm -> M.lit_point nm M.N0 M.N0 M.N0 M.N0) names in
+           (match M.point_idx pts n with
+            | M.Ok i -> Buffer.add_string b (" " ^ su i ^ ":" ^ su i)
+            | _ -> Buffer.add_string b " x")
+         done;
+         pr "%s\n" (Buffer.contents b)
        | "h2u" -> let b = tk_str tk in pr "ok %s\n" (sz (M.hex2uint b))
        | "h2i" -> let b = tk_str tk in pr "ok %s\n" (sz (M.hex2int b))
        | "h2sweep" ->
